@@ -37,6 +37,21 @@ def scripts(rnd, ntables, types):
         yield rebased(sc + ops, rnd)
 
 
+def big_table(rnd):
+    """a table with more registers than a 16-bit handle can name (built inside the harness): reads and ranges around handle 2^16"""
+    sc = []
+    for be, base in ((0, None), (1, (0xFFFE, 0xFE20))):
+        if base:
+            sc.append('abase %d %d' % base)
+        sc += ['tinitbig 66000 %d' % be, 'get 65535', 'get 65536', 'get 65999', 'get 66000', 'set 65990 0 0 0 0 0 4242', 'get 65990', 'get 454']
+        for addr, n in ((65990, 10), (65530, 10), (65536, 1), (65535, 2), (65999, 1), (65999, 5), (0, 3)):
+            sc.append('foreach %d %d 0' % (addr, n))
+            sc.append('foreach %d %d 2 0 %d' % (addr, n, rnd.choice([-1, 1])))
+            sc.append('bread %d %d' % (addr, min(n, 6)))
+        sc += ['bwrite 65600 2 1 2', 'get 65600', 'get 64', 'bread 65995 6']
+    return [sc]
+
+
 def run(tier):
     v = vf.Verdict('C03', tier)
     vf.build()
@@ -49,6 +64,7 @@ def run(tier):
     for rnd in vf.rounds(tier, 4):
         ss += list(scripts(rnd, 36 if quick else 200, [U16, U32, U64, F32, S16] if quick else list(range(8))))
     vf.trace_flow(v, 'RegTableTrace.tla', 'RegTableTrace.cfg', 'regtab', ss, 'br')
+    vf.trace_flow(v, 'RegTableTrace.tla', 'RegTableTraceBig.cfg', 'regtab', big_table(rnd), 'brbig')
     v.cov['distinct_nontrivial'] += len(set((i, l) for i, s in enumerate(ss) for l in s if l.startswith(('bread', 'foreach'))))
     v.notes['tables'] = len(ss)
     v.cov['rule'] = ('seeded family of well-formed tables; for each, every (address, length 0..9) block read and iteration range, iteration also with callback scripts; '
